@@ -528,7 +528,10 @@ class Facts:
         self.repo = repo
         # new private helpers (not among the reviewed tree's functions) are expanded into their callers
         from .inline import inline_new_helpers
-        self.inlined = inline_new_helpers(self.j)
+        import os as _os
+        cfg = _os.path.basename(path).rsplit("-", 1)[0]
+        self.inlined = inline_new_helpers(self.j, config=cfg if cfg in ("default", "export-metrics") else "default")
+        self.renamed = self.j.get("renamed_functions", {})
         self.adts = self.j["adts"]
         self.consts = self.j["consts"]
         self.impls = self.j["impls"]
